@@ -115,8 +115,12 @@ func jsToggles() []jsToggle {
 		{"jsx.Factory.Constant", nil, func(o *config.Options) { o.JSX.Factory.Constant = &js_ast.ENumber{Value: 1} }},
 		{"jsx.Factory.Parts", nil, func(o *config.Options) { o.JSX.Factory.Parts = []string{"React", "createElement"} }},
 		{"jsx.Factory.InjectedDefineIndex", nil, func(o *config.Options) { o.JSX.Factory.InjectedDefineIndex = ast.MakeIndex32(0) }},
-		{"jsx.Fragment.Constant", func(o *config.Options) { o.JSX.Fragment = config.DefineExpr{Constant: &js_ast.EString{Value: []uint16{'f'}}} },
-			func(o *config.Options) { o.JSX.Fragment = config.DefineExpr{Constant: &js_ast.EString{Value: []uint16{'g'}}} }},
+		{"jsx.Fragment.Constant", func(o *config.Options) {
+			o.JSX.Fragment = config.DefineExpr{Constant: &js_ast.EString{Value: []uint16{'f'}}}
+		},
+			func(o *config.Options) {
+				o.JSX.Fragment = config.DefineExpr{Constant: &js_ast.EString{Value: []uint16{'g'}}}
+			}},
 		{"jsx.Fragment.Parts", nil, func(o *config.Options) { o.JSX.Fragment.Parts = []string{"React", "Fragment"} }},
 		{"jsx.Fragment.InjectedDefineIndex", nil, func(o *config.Options) { o.JSX.Fragment.InjectedDefineIndex = ast.MakeIndex32(0) }},
 		{"jsx.Parse", nil, func(o *config.Options) { o.JSX.Parse = false }},
@@ -137,6 +141,32 @@ func jsToggles() []jsToggle {
 			o.TSAlwaysStrict = &c
 		}},
 		{"tsAlwaysStrict.Value", nil, func(o *config.Options) { c := *o.TSAlwaysStrict; c.Value = false; o.TSAlwaysStrict = &c }},
+		// presence (nil <-> non-nil) of the pointer-typed and slice-typed fields, both directions
+		{"tsAlwaysStrict.Value", nil, func(o *config.Options) { o.TSAlwaysStrict = nil }},
+		{"tsAlwaysStrict.Value", func(o *config.Options) { o.TSAlwaysStrict = nil },
+			func(o *config.Options) {
+				o.TSAlwaysStrict = &config.TSAlwaysStrict{Name: "strict", Source: mkSource("/tsconfig.json", "{}"), Value: true}
+			}},
+		{"tsAlwaysStrict.Name", func(o *config.Options) { o.TSAlwaysStrict = nil },
+			func(o *config.Options) {
+				o.TSAlwaysStrict = &config.TSAlwaysStrict{Name: "alwaysStrict", Source: mkSource("/tsconfig.json", "{}"), Value: false}
+			}},
+		{"mangleProps", nil, func(o *config.Options) { o.MangleProps = nil }},
+		{"mangleProps", func(o *config.Options) { o.MangleProps = nil }, func(o *config.Options) { o.MangleProps = regexp.MustCompile("_$") }},
+		{"reserveProps", nil, func(o *config.Options) { o.ReserveProps = nil }},
+		{"reserveProps", func(o *config.Options) { o.ReserveProps = nil }, func(o *config.Options) { o.ReserveProps = regexp.MustCompile("^__") }},
+		{"dropLabels", nil, func(o *config.Options) { o.DropLabels = nil }},
+		{"dropLabels", func(o *config.Options) { o.DropLabels = nil }, func(o *config.Options) { o.DropLabels = []string{"DEV"} }},
+		{"injectedFiles[].Source", nil, func(o *config.Options) { o.InjectedFiles = nil }},
+		{"injectedFiles[].Exports[].Alias", nil, func(o *config.Options) {
+			f := o.InjectedFiles[0]
+			f.Exports = nil
+			o.InjectedFiles = []config.InjectedFile{f}
+		}},
+		{"jsx.Fragment.Constant", nil, func(o *config.Options) {
+			o.JSX.Fragment = config.DefineExpr{Constant: &js_ast.EString{Value: []uint16{'g'}}}
+		}},
+		{"jsx.Factory.Parts", nil, func(o *config.Options) { o.JSX.Factory.Parts = nil }},
 		{"mangleProps", nil, func(o *config.Options) { o.MangleProps = regexp.MustCompile("^_") }},
 		{"reserveProps", nil, func(o *config.Options) { o.ReserveProps = regexp.MustCompile("^keep") }},
 		{"dropLabels", nil, func(o *config.Options) { o.DropLabels = []string{"TEST"} }},
@@ -145,7 +175,9 @@ func jsToggles() []jsToggle {
 		{"moduleTypeData", nil, func(o *config.Options) {
 			o.ModuleTypeData = js_ast.ModuleTypeData{Type: js_ast.ModuleESM_PackageJSON, Source: &src2}
 		}},
-		{"unsupportedJSFeatures", nil, func(o *config.Options) { o.UnsupportedJSFeatures = compat.ClassField | compat.NullishCoalescing | compat.OptionalChain }},
+		{"unsupportedJSFeatures", nil, func(o *config.Options) {
+			o.UnsupportedJSFeatures = compat.ClassField | compat.NullishCoalescing | compat.OptionalChain
+		}},
 		{"unsupportedJSFeatureOverrides", nil, func(o *config.Options) { o.UnsupportedJSFeatureOverrides = compat.ClassField }},
 		{"unsupportedJSFeatureOverridesMask", nil, func(o *config.Options) { o.UnsupportedJSFeatureOverridesMask = compat.ClassField }},
 		{"ts.Config.ExperimentalDecorators", nil, func(o *config.Options) { o.TS.Config.ExperimentalDecorators = config.True }},
@@ -182,13 +214,14 @@ var jsCorpus = []string{
 	"export class C { x: number; y = 1; static s = 2; declare z: string; #p_ = 1; foo_ = 2 }\nexport enum E { A = 1, B }\n",
 	"import {T, v} from './t'; import unused from './u'; export const r = v ?? a?.b; DEV: console.log(1); debugger; if (true) f(); o.prop_ = o['quoted_']; export type Q = T\n",
 	"export function f() { return /* @__PURE__ */ g() } /* @__PURE__ */ g(); let s = 'π'; this; typeof require; import.meta.url\n",
+	"console.log(typeof this, 010); var o_ = { a_: 1 }; delete o_.a_;\n", // a sloppy-mode script: strictness is visible
 }
 
 func streamOptEq(seed uint64, n int, cf *CoqFile) *Stats {
 	st := NewStats("c09/opteq", seed)
 	var items []string
 	var names []string
-	for _, tg := range jsToggles() {
+	for ti, tg := range jsToggles() {
 		names = append(names, tg.name)
 		// an index without a matching injected define is not a state the API can
 		// produce (the parser would index out of range): only observe hit/miss
@@ -219,7 +252,7 @@ func streamOptEq(seed uint64, n int, cf *CoqFile) *Stats {
 				items = append(items, fmt.Sprintf("(0, %q, %s)", tg.name, CBool(hit)))
 			}
 			if hitOnly {
-				st.Note("js-field:"+tg.name, fmt.Sprint(ci), !hit)
+				st.Note("js-field:"+tg.name, fmt.Sprintf("%d/%d", ti, ci), !hit)
 				continue
 			}
 			// the property's predicate: the cached answer prints like a direct parse
@@ -227,13 +260,13 @@ func streamOptEq(seed uint64, n int, cf *CoqFile) *Stats {
 			astD, okD := js_parser.Parse(logD, src, js_parser.OptionsFromConfig(&o2))
 			msgsD := logD.Done()
 			got, want := printJS(ast2, ok2, msgs2), printJS(astD, okD, msgsD)
-			st.Note("js-field:"+tg.name, fmt.Sprint(ci), !hit || got != want)
+			st.Note("js-field:"+tg.name, fmt.Sprintf("%d/%d", ti, ci), !hit || got != want)
 			if got != want {
 				what := "JSCache.Parse returns a stale AST: Options.Equal ignores an option field that changes the parse"
 				if strings.HasPrefix(tg.name, "jsx.") {
 					what = "known-C-jscache-returns-stale-ast-for-uncompared-jsx-field"
 				}
-				st.Fail(what, map[string]interface{}{"scenario": "jscache-option-field-toggle", "field": tg.name, "source": code, "cache_hit": hit}, got, want)
+				st.Fail(what, map[string]interface{}{"scenario": "jscache-option-field-toggle", "field": tg.name, "toggle_number": ti, "source": code, "cache_hit": hit}, got, want)
 				break // one failing source per field is enough
 			}
 		}
